@@ -90,9 +90,16 @@ def direction_a1(ck, dev):
             require_coverage(res, ["AReadXRefs", "AGetObj"])
         cache = {}
         n = 0
+        # every behaviour is checked by TLC; when a configuration has more than 300,000 of them only a deterministic
+        # eighth is realised and replayed on the code (stated in evidence)
+        stride = 8 if res.emitted > 300000 else 1
+        skipped = 0
         for line in open(emit):
-            r = json.loads(line)
             n += 1
+            if stride > 1 and (n * 2654435761) % 2 ** 32 % stride:
+                skipped += 1
+                continue
+            r = json.loads(line)
             variant += 1
             eol = EOLS[variant % 3]
             w = [(1, 4, 2), (1, 2, 2), (2, 3, 2)][(variant // 3) % 3]
@@ -148,7 +155,9 @@ def direction_a1(ck, dev):
         os.remove(emit)
         if n != res.emitted or n == 0:
             raise MachineryError("emitted %d, replayed %d" % (res.emitted, n))
-        ck.replayed += n
+        ck.replayed += n - skipped
+        if skipped:
+            ck.extra["behaviours_checked_by_TLC_but_not_replayed"] = ck.extra.get("behaviours_checked_by_TLC_but_not_replayed", 0) + skipped
 
 
 def direction_a2(ck):
